@@ -114,6 +114,11 @@ class Server(QueuedResource):
         self._service_time = service_time or ConstantLatency(0.01)
         self._downstream = downstream
 
+        # The driver asks has_capacity() before it knows which request it will
+        # get; the queue releases a request only if capacity fits *its* weight,
+        # so a heavy request waits instead of being dequeued and then discarded.
+        self.queue.dispatch_guard = self._fits
+
         # Statistics
         self._requests_completed = 0
         self._requests_rejected = 0
@@ -210,6 +215,11 @@ class Server(QueuedResource):
             requests_rejected=self._requests_rejected,
             total_service_time=self._total_service_time,
         )
+
+    def _fits(self, event: Event) -> bool:
+        """Whether free capacity covers the weight this request declares."""
+        weight = event.context.get("metadata", {}).get("weight", 1)
+        return self._concurrency_model.has_capacity(weight)
 
     def has_capacity(self, weight: int = 1) -> bool:
         """Check if server can accept another request.
